@@ -27,14 +27,16 @@ RULE = (
     "across the three interpreter configurations.  Non-trivial = anything but a plain valid list "
     "under the default interpreter: a count >= 2 or == 0, mixed IDs, the empty list, or -O/-OO.")
 ASSUMPTIONS = ['message IDs are distinct, except that the same document may be listed twice', 'each document is individually classifiable']
-MANDATORY = ['source:readers-twice', 'blank-roID-among-others', 'same-document-twice', 'source:files', 'completed-roCreate', 'flags:-O', 'flags:-OO', 'empty-list', 'two-roCreates', 'two-roDeletes', 'no-roCreate',
+MANDATORY = ['source:s3', 'source:readers-twice', 'blank-roID-among-others', 'same-document-twice', 'source:files', 'completed-roCreate', 'flags:-O', 'flags:-OO', 'empty-list', 'two-roCreates', 'two-roDeletes', 'no-roCreate',
              'mixed-ids', 'valid-complete', 'valid-incomplete-allowed', 'incomplete-not-allowed',
              'roReplace-present']
 
 WORKER = r'''
 import sys, json
-sys.path.insert(0, REPO)
-import logging; logging.disable(logging.CRITICAL)
+sys.path.insert(0, @VDIR@)
+import os
+os.environ['VERIF_' + 'RE' + 'PO_DIR'] = @REPO@
+from vlib import env, fakes3          # (the repository first on sys.path, mosromgr imported from there, logging off)
 from mosromgr.moscollection import MosCollection
 out = []
 import os, tempfile, shutil
@@ -43,7 +45,7 @@ for docs, ai, source in json.load(sys.stdin):
     try:
         if source == 'files':
             # one file per DISTINCT document: a document listed twice is the same path twice
-            tmp = tempfile.mkdtemp(prefix='c11-', dir=WORK)
+            tmp = tempfile.mkdtemp(prefix='c11-', dir=@WORK@)
             paths = []
             for d in docs:
                 p = os.path.join(tmp, 'doc%03d.mos.xml' % docs.index(d))
@@ -51,6 +53,12 @@ for docs, ai, source in json.load(sys.stdin):
                     open(p, 'w', encoding='utf-8').write(d)
                 paths.append(p)
             mc = MosCollection.from_files(paths, allow_incomplete=ai)
+        elif source == 's3':
+            # the same documents as objects of a (fake) bucket listed in pages of two keys
+            objs = {'pfx/k%03d.mos.xml' % n: d.encode('utf-8') for n, d in enumerate(docs)}
+            objs.update({'pfx/notes.txt': b'x', 'elsewhere/zz.mos.xml': b'<mos/>'})
+            with fakes3.FakeS3({'bkt': objs}, page_size=2):
+                mc = MosCollection.from_s3(bucket_name='bkt', prefix='pfx/', allow_incomplete=ai)
         elif source == 'readers-twice':
             # the caller's own reader list, used for a first attempt (without allow_incomplete)
             # and then again: the second construction must see the same list
@@ -174,7 +182,8 @@ def oracle(case):
 
 
 def evaluate(cases, flags):
-    prog = WORKER.replace('REPO', repr(env.REPO_DIR)).replace('WORK', repr(env.ensure_dir(env.WORK_DIR)))
+    prog = WORKER.replace('@REPO@', repr(env.REPO_DIR)).replace('@WORK@', repr(env.ensure_dir(env.WORK_DIR))) \
+        .replace('@VDIR@', repr(env.VERIF_DIR))
     payload = json.dumps([[c['docs'], c['allow_incomplete'], c.get('source', 'strings')] for c in cases])
     r = subprocess.run([sys.executable, '-B'] + FLAGS[flags] + ['-c', prog], input=payload,
                        capture_output=True, text=True, timeout=900,
@@ -279,6 +288,10 @@ def run(tier, seed, procs):
                 c4 = make_case(nc, nd, no, pat, ai, perm_seed=ps + seed, other_off=ps, source='readers-twice')
                 if c4 is not None:
                     cases.append(c4)
+            if nc <= 2 and nd <= 2 and no <= 3 and pat in ('all-equal', 'delete-deviates'):
+                c5 = make_case(nc, nd, no, pat, ai, perm_seed=ps + seed, other_off=ps, source='s3')
+                if c5 is not None:
+                    cases.append(c5)
             if nc <= 2 and nd <= 2 and no <= 2 and pat == 'all-equal':
                 # from files, plain and with each document in turn listed twice
                 for dup in [None] + list(range(nc + nd + no)):
